@@ -2,7 +2,13 @@
 (***************************************************************************)
 (* HTTP-Redirect URLs (C14) and HTTP-POST forms (C16):                     *)
 (* build_request.go:138-301, 385-557; build_logout_response.go:98-158.     *)
-(* relay is the class of the relay state (the driver draws the string).    *)
+(* relay is the class of the relay state (the driver draws the string:     *)
+(* empty, plain, characters that mean something in a query string -- on a  *)
+(* third of the draws only VALID percent escapes --, HTML, script, CR/LF,  *)
+(* non-ASCII, long, mixed, not UTF-8 (Redirect only), C0 controls and      *)
+(* non-characters, and every string literal of the library source under    *)
+(* check).  The identical call on the same document must give the          *)
+(* identical page and leave the document alone.                            *)
 (***************************************************************************)
 EXTENDS Naturals, Sequences, FiniteSets, TLC
 
